@@ -80,7 +80,8 @@ func ruleC18T1(r *Run) {
 			}
 		}
 	})
-	first := findCalls(dial, false, "/transport.Dialer.Dial")
+	// the first dial: in Dial, or in the helper the initial dial loop was moved to
+	first := p.callsReaching(dial, 1, "/transport.Dialer.Dial")
 	okGen := gen != nil && len(first) > 0
 	if okGen {
 		// the store is on a branch (id empty); the join must precede the dial: no dial reachable before the test
